@@ -63,7 +63,7 @@ func mptEntries(r *engine.Run, rule string) []*ssa.Function {
 func runC16(r *engine.Run) {
 	r.Rule("LOCK-mpt", "guarded-by discipline over every function reachable from the trie operations named in the property and from the exported methods of MemoryNodeDB/LevelNodeDB/ChangeCollector: root, deleteNodes, the stores' maps and level links and the collector's maps are accessed only with their owner's mutex held in the required mode (interprocedural must-lockset; writes need the write lock), constructor-only fields are never rewritten; `go` bodies start with nothing held")
 	r.Rule("LOCK-walk", "every node fetch of the trie (getNode) that is reachable from the operations that start at the trie's own root happens with the trie's mutex held (read or write): a walk holds the lock from reading the root to the last node, because writers physically remove replaced nodes. Named exception: IterateFrom starts from a node key supplied by the caller, reads no guarded state and is synchronised by its caller")
-	r.Rule("LOCK-snapshot", "SaveChanges takes its snapshot (ChangeCollector.Clone) with the trie's read lock held and writes from that snapshot, never from the live collector: one update is a sequence of AddChange calls that is atomic only under the trie lock")
+	r.Rule("LOCK-snapshot", "SaveChanges takes its snapshot (ChangeCollector.Clone) with the trie's read lock held and writes from that snapshot, never from the live collector: one update is a sequence of AddChange calls that is atomic only under the trie lock; ChangeCollector.Clone copies every node it puts into the snapshot with CloneNode()")
 	r.Rule("ORDER-critical", "Insert, Delete, MergeChanges and MergeDB acquire the trie's write lock before the first read of the root and keep it (deferred unlock) until after the last root update: each mutating operation is a single critical section")
 	r.Rule("PAIR-unlock", "every Lock/RLock of a mutex is followed on every path to a return of the acquiring function by the matching Unlock/RUnlock on the same mutex or by a deferred one registered on the path: no operation returns with the lock held (every later operation on the object would block)")
 	r.NotDec = append(r.NotDec, "linearizability of histories (needs executions)", "SetVersion concurrent with operations (outside the property's operation set)")
@@ -75,7 +75,8 @@ func runC16(r *engine.Run) {
 	orderCritical(r, w)
 	lockWalk(r, w)
 	cloneUnderLock(r, w)
-	pairUnlock(r, "PAIR-unlock", funcsOfPkg(r, pkgUtil), 20)
+	cloneSnapshotDeep(r, "LOCK-snapshot")
+	pairUnlock(r, "PAIR-unlock", funcsOfPkg(r, pkgUtil), 10)
 }
 
 func orderCritical(r *engine.Run, w *engine.LockWorld) {
@@ -242,4 +243,64 @@ func cloneUnderLock(r *engine.Run, w *engine.LockWorld) {
 		})
 	}
 	r.Check(good, rule, fn(f)+"|writes from the snapshot", r.P.Pos(clone.Pos()), "UpdateChanges is invoked on the snapshot", "UpdateChanges is not invoked on the snapshot taken under the lock")
+}
+
+// cloneSnapshotDeep: the snapshot SaveChanges works from shares no node object
+// with the live collector: every node ChangeCollector.Clone puts into the new
+// collector (New/Old of a change, a dead node) is the result of CloneNode().
+func cloneSnapshotDeep(r *engine.Run, rule string) {
+	f := r.Fn(rule, pkgUtil, "ChangeCollector", "Clone")
+	if f == nil {
+		return
+	}
+	isCloneNode := func(v ssa.Value) bool {
+		for {
+			switch x := v.(type) {
+			case *ssa.MakeInterface:
+				v = x.X
+				continue
+			case *ssa.ChangeInterface:
+				v = x.X
+				continue
+			}
+			break
+		}
+		c, ok := v.(*ssa.Call)
+		if !ok {
+			return false
+		}
+		_, is := engine.IsMethodCall(c, "CloneNode")
+		return is
+	}
+	n := 0
+	o := ord{}
+	engine.Instrs(f, func(in ssa.Instruction) {
+		switch x := in.(type) {
+		case *ssa.Store:
+			fa, ok := x.Addr.(*ssa.FieldAddr)
+			if !ok {
+				return
+			}
+			nm := namedOf(fa.X.Type())
+			if nm == nil || nm.Obj().Name() != "NodeChange" {
+				return
+			}
+			name := engine.FieldOf(fa).Name()
+			if name != "New" && name != "Old" {
+				return
+			}
+			n++
+			r.Check(isCloneNode(x.Val), rule, o.next(fn(f)+"|change."+name), r.P.Pos(x.Pos()), "copied with CloneNode()",
+				"the snapshot of the pending changes shares a node object with the live collector: a concurrent update rewrites what the save is writing")
+		case *ssa.MapUpdate:
+			if fld := fieldLoadOf(x.Map); fld != nil && fld.Name() == "Deletes" {
+				n++
+				r.Check(isCloneNode(x.Value), rule, o.next(fn(f)+"|dead node"), r.P.Pos(x.Pos()), "copied with CloneNode()",
+					"the snapshot of the dead nodes shares a node object with the live collector")
+			}
+		}
+	})
+	if n < 3 {
+		r.Anchor(rule, fmt.Errorf("unresolved anchor: %d node copies in ChangeCollector.Clone", n))
+	}
 }
